@@ -281,7 +281,19 @@ func (x *Exec) havocLoop(st *State, fr *Frame, header *ssa.BasicBlock, li *loopI
 func (x *Exec) markReachable(st *State, v Value, cells map[int]bool) {
 	switch p := v.(type) {
 	case PtrV:
+		if cells[p.Cell] {
+			return
+		}
 		cells[p.Cell] = true
+		if st != nil {
+			// a captured variable that itself holds a closure: what that closure captured is reachable too
+			switch cv := st.cells[p.Cell].(type) {
+			case CloV:
+				x.markReachable(st, cv, cells)
+			case IfaceV:
+				x.markReachable(st, cv.V, cells)
+			}
+		}
 	case SliceRef:
 		cells[p.Cell] = true
 	case MapRef:
@@ -641,11 +653,7 @@ func (x *Exec) walk(c *CallCtx) []Outcome {
 	}
 	// no invariant: havoc what the callback may write
 	cells := map[int]bool{}
-	for idx := range x.closureWrites(fn) {
-		if idx < len(free) {
-			x.markReachable(st, free[idx], cells)
-		}
-	}
+	x.cellsWrittenBy(st, fn, free, cells, 0)
 	ws, unk := x.fnWrites(fn, map[*ssa.Function]bool{})
 	for cnum := range cells {
 		if tv, ok := st.cells[cnum].(TV); ok {
@@ -790,5 +798,125 @@ func (x *Exec) bindFree(fn *ssa.Function, free []Value) {
 			}
 		}
 		x.freeBind[fv] = v
+	}
+}
+
+// cellsWrittenBy marks the heap cells a closure may write when called, following callbacks that are held in
+// its captured variables (their runtime values are known) and closures it creates over them.
+func (x *Exec) cellsWrittenBy(st *State, fn *ssa.Function, free []Value, cells map[int]bool, depth int) {
+	if depth > 8 || fn == nil || fn.Blocks == nil {
+		return
+	}
+	idx := map[ssa.Value]int{}
+	for i, fv := range fn.FreeVars {
+		idx[fv] = i
+	}
+	root := func(v ssa.Value) ssa.Value {
+		for {
+			switch a := v.(type) {
+			case *ssa.FieldAddr:
+				v = a.X
+				continue
+			case *ssa.IndexAddr:
+				v = a.X
+				continue
+			case *ssa.UnOp:
+				v = a.X
+				continue
+			}
+			return v
+		}
+	}
+	freeVal := func(v ssa.Value) (Value, bool) {
+		i, ok := idx[root(v)]
+		if !ok || i >= len(free) {
+			return nil, false
+		}
+		fv := free[i]
+		if p, ok := fv.(PtrV); ok && len(p.Path) == 0 {
+			if cv, ok := st.cells[p.Cell]; ok {
+				if _, isTV := cv.(TV); !isTV {
+					return cv, true
+				}
+			}
+		}
+		return fv, true
+	}
+	for _, b := range fn.Blocks {
+		for _, in := range b.Instrs {
+			switch ins := in.(type) {
+			case *ssa.Store:
+				if i, ok := idx[root(ins.Addr)]; ok && i < len(free) {
+					x.markReachable(st, free[i], cells)
+				}
+			case *ssa.MapUpdate:
+				if i, ok := idx[root(ins.Map)]; ok && i < len(free) {
+					x.markReachable(st, free[i], cells)
+				}
+			case *ssa.MakeClosure:
+				inner := ins.Fn.(*ssa.Function)
+				var ifree []Value
+				for _, bnd := range ins.Bindings {
+					if i, ok := idx[root(bnd)]; ok && i < len(free) {
+						ifree = append(ifree, free[i])
+					} else {
+						ifree = append(ifree, nil)
+					}
+				}
+				x.cellsWrittenBy(st, inner, ifree, cells, depth+1)
+			case ssa.CallInstruction:
+				cc := ins.Common()
+				if !cc.IsInvoke() {
+					if _, isStatic := cc.Value.(*ssa.Function); !isStatic {
+						if _, isB := cc.Value.(*ssa.Builtin); !isB {
+							// dynamic call: a callback held in a captured variable
+							if v, ok := freeVal(cc.Value); ok {
+								switch f := v.(type) {
+								case CloV:
+									x.cellsWrittenBy(st, f.Fn, f.Free, cells, depth+1)
+								case IfaceV:
+									if cv, ok := f.V.(CloV); ok {
+										x.cellsWrittenBy(st, cv.Fn, cv.Free, cells, depth+1)
+									}
+								}
+							}
+						}
+					} else if callee := cc.StaticCallee(); callee != nil && inRepo(callee) && callee.Blocks != nil {
+						// a repository function receiving our captured callbacks / pointers: follow closure arguments
+						for _, a := range cc.Args {
+							if v, ok := freeVal(a); ok {
+								switch f := v.(type) {
+								case CloV:
+									x.cellsWrittenBy(st, f.Fn, f.Free, cells, depth+1)
+								case PtrV:
+									if _, isPtr := a.Type().Underlying().(*types.Pointer); isPtr {
+										x.markReachable(st, f, cells)
+									}
+								}
+							}
+							if mc, ok := a.(*ssa.MakeClosure); ok {
+								inner := mc.Fn.(*ssa.Function)
+								var ifree []Value
+								for _, bnd := range mc.Bindings {
+									if i, ok := idx[root(bnd)]; ok && i < len(free) {
+										ifree = append(ifree, free[i])
+									} else {
+										ifree = append(ifree, nil)
+									}
+								}
+								x.cellsWrittenBy(st, inner, ifree, cells, depth+1)
+							}
+						}
+					}
+				}
+				for _, a := range cc.Args {
+					if i, ok := idx[root(a)]; ok && i < len(free) {
+						if _, isPtr := a.Type().Underlying().(*types.Pointer); isPtr {
+							x.markReachable(st, free[i], cells)
+						}
+					}
+				}
+			}
+		}
 	}
 }
